@@ -50,7 +50,7 @@ from ..tlaval import iter_dump, to_tla
 from ..tlc import MachineryError, run_tlc
 from ..traces import validate
 
-LOOP_DEVS = ["DirByAttr", "CountGe", "SingleGe", "EntryRatioGe", "TotalGe", "TotalRatioGe", "DropCount", "DropSingle",
+LOOP_DEVS = ["DirByAttr", "CountFilesOnly", "CountGe", "SingleGe", "EntryRatioGe", "TotalGe", "TotalRatioGe", "DropCount", "DropSingle",
              "DropZeroCs", "DropEntryRatio", "DropTotal", "DropTotalRatio", "CountDirs", "EntryRatioSwapped",
              "TotalRatioSwapped"]
 PROTO_DEVS = ["DirectConstruct", "ReadBeforeValidate", "ReturnRejected", "XlsxSkipsValidate", "NoRestorePos"]
@@ -168,22 +168,24 @@ def run(ctx):
                                  _loop_cfg(FS_RED, CS_RED, 2, "LS_Quick", invs=["Inv_BigAgrees"])
                                  .replace("SPECIFICATION Spec", "SPECIFICATION BigSpec") + "CONSTANTS Base = 4\n",
                                  workers=2, timeout=600)
+    fut["alone"] = pool.submit(_tlc, ctx, "ZipGuard",
+                               _loop_cfg(FS_FULL if T else FS_RED, CS_FULL if T else CS_RED, 2, "LS_Alone"),
+                               workers=4, timeout=900)
     fut["meta"] = pool.submit(_tlc, ctx, "ZipGuard",
                               _loop_cfg(FS_FULL if T else FS_RED, CS_FULL if T else CS_RED, 2, "LS_Quick", ab="{FALSE, TRUE}"),
                               workers=4, timeout=900)
     fut["proto"] = pool.submit(_tlc, ctx, "ZipGuard", _proto_cfg(), workers=2, timeout=600)
     if os.environ.get("C11_DEV_SKIP_THEOREMS") == "1":      # development aid for the mutation self-test only:
-        for k in ("loop3", "loopvar", "big", "meta"):        # skips spec-only runs, nothing about the code
+        for k in ("loop3", "loopvar", "big", "meta", "alone"):   # skips spec-only runs, nothing about the code
             fut[k].cancel()
             fut[k] = fut["proto"]
     sens = {}
-    # thorough: all 20 mutations of the specification; quick: DirByAttr + 2 loop + 1 protocol mutation (rotated)
+    # thorough: all 21 mutations of the specification; quick: DirByAttr, CountFilesOnly + 1 loop + 1 protocol (rotated)
     if os.environ.get("C11_DEV_SKIP_THEOREMS") == "1":
         LOOP, PROTO = [], PROTO_DEVS[:1]
     else:
         LOOP, PROTO = LOOP_DEVS, PROTO_DEVS
-    loop_devs = LOOP if T else sorted({LOOP[0]} | {LOOP[1 + (ctx.seed * 2 + k) % (len(LOOP) - 1)] for k in range(2)}) \
-        if LOOP else []
+    loop_devs = LOOP if T else sorted({LOOP[0], LOOP[1], LOOP[2 + ctx.seed % (len(LOOP) - 2)]}) if LOOP else []
     proto_devs = PROTO if T else [PROTO[ctx.seed % len(PROTO)]]
     for d in loop_devs:
         sens[d] = pool.submit(_tlc, ctx, "ZipGuard",
@@ -201,9 +203,10 @@ def run(ctx):
     names = {"loop3": "ZipGuard loop = Reject, <= 3 entries, limits {L0, maxEntries 3}",
              "loopvar": "ZipGuard loop = Reject, <= 2 entries, " + ("243 limit variants" if T else "limits {L0, L1, L2}"),
              "big": "ZipGuardBig: limb predicate = integer predicate on the overlap (Base 4)",
+             "alone": "ZipGuard loop = Reject, each limit tightened alone / loosened alone / all loose (11 limit sets)",
              "meta": "ZipGuard loop = Reject with the metadata bit free (verdict depends on name and sizes only)",
              "proto": "ZipGuard protocol: held => MayRead, rejected never held, position restored"}
-    for k in ("loop3", "loopvar", "big", "meta", "proto"):
+    for k in ("loop3", "loopvar", "big", "alone", "meta", "proto"):
         r = fut[k].result()
         ev.tlc(names[k], r)
         if r.violated:
@@ -245,7 +248,8 @@ def run(ctx):
               "package); 'same bytes' = equal SHA-1 of the stream contents at ZipFile construction",
               "default-magnitude sizes are encoded by Python as little-endian base-2^15 limb sequences; the limb "
               "predicate is proven equal to the integer predicate by TLC only on the small overlap (Base = 4)",
-              "whether directory entries count towards max_entries is not fixed by the statement: DON'T-CARE band",
+              "the entry-count clause counts every central-directory record, directory records included (the "
+              "unchanged code, DESIGN.md 4/C11); 'directories are ignored' applies to the size / ratio clauses",
               "the clause named in the error message is not checked (DON'T-CARE)")
 
 
@@ -283,6 +287,7 @@ def _lattice_jobs(ctx):
     if not T:
         specs.append(("q2", "ZipGuardGen", _gen_cfg(FS_FULL, CS_FULL, 2, "LT_Quick")))
         specs.append(("q3", "ZipGuardGen", _gen_cfg(FS_RED, CS_RED, 3, "LT_L3")))
+        specs.append(("qa", "ZipGuardGen", _gen_cfg(FS_RED, CS_RED, 2, "LT_Alone")))
     else:
         # ask TLC for the 243 limit variants, partition them into jobs through generated modules
         d0 = ctx.scratch / "lt.dump"
@@ -305,6 +310,7 @@ def _lattice_jobs(ctx):
             (sdir / f"{name}.tla").write_text(
                 f"---- MODULE {name} ----\nEXTENDS ZipGuardGen\nJobLimits == {lt}\n====\n")
             specs.append((f"t{k}", sdir / f"{name}.tla", _gen_cfg(FS_FULL, CS_FULL, 3, "JobLimits")))
+        specs.append(("ta", "ZipGuardGen", _gen_cfg(FS_FULL, CS_FULL, 2, "LT_Alone")))
 
     def one(item):
         tag, spec, cfg = item
@@ -347,7 +353,7 @@ def _collect_lattice(ctx, futs):
                 (j for j, x in enumerate(t["ev"]) if (x["exp"], x["obs"]) in (("reject", "ok"), ("accept", "bomb"))
                  or (x["obs"] == "other" and x["exp"] != "dontcare")), 0)
             e = t["ev"][k]
-            v.violation(what=f"validate_zipfile on entries {e['es']} (fs, cs, dir) with limits "
+            v.violation(what=f"{e.get('ep', 'validate_zipfile')} on entries {e['es']} (fs, cs, dir) with limits "
                              f"(maxEntries, maxSingle, maxTotal, trNum, trDen, erNum, erDen) = {t['hdr']['lim']}: "
                              f"{ {'bomb': 'raised ExtractionZipBombError', 'ok': 'accepted', 'other': 'raised another exception'}[e['obs']]}"
                              f" [{e.get('exc', '')}] with entry metadata {e.get('meta')}, "
@@ -365,7 +371,8 @@ def _collect_lattice(ctx, futs):
             Path(fn).unlink(missing_ok=True)
     ev.replayed(total)
     ctx.log(f"(i) {total} lattice observations ({nexec} executions of validate_zipfile: every vector under "
-            f"{len(META)} entry-metadata variants + a mixed one) decided by TLC")
+            f"{len(META)} entry-metadata variants + a mixed one, and as a real ZIP through validate_zipfile, "
+            f"validate_zip_bytesio, open_zipfile with the lattice limits) decided by TLC")
 
 
 # --------------------------------------------------------------------------- (ii) decide real-file observations
@@ -703,6 +710,31 @@ def _w_lattice(tag, job, out):
             infos[k] = zi
         return infos[k]
     rng = random.Random(job.get("seed", 0) * 104729 + sum(map(ord, tag)))
+    # every public entry point of the guard that takes `limits`, driven with the SAME non-default limits object:
+    # validate_zipfile on a real ZipFile, and every function taking a stream (validate_zip_bytesio, open_zipfile,
+    # anything else the module exports with that shape)
+    import inspect
+    stream_eps = []
+    for nm, fn in sorted(vars(zip_bomb).items()):
+        if nm.startswith("_") or not inspect.isfunction(fn) or fn.__module__ != zip_bomb.__name__:
+            continue
+        ps = inspect.signature(fn).parameters
+        if "limits" in ps and nm != "validate_zipfile":
+            stream_eps.append((nm, fn))
+    for need in ("validate_zip_bytesio", "open_zipfile"):
+        if need not in dict(stream_eps):
+            raise MachineryError(f"binding vanished: zip_bomb.{need}(..., limits=)")
+
+    def observe(call):
+        try:
+            r = call()
+            if hasattr(r, "close"):
+                r.close()
+            return "ok", ""
+        except ExtractionZipBombError as ex:
+            return "bomb", str(ex)[:60]
+        except Exception as ex:             # wrong exception type: neither the bomb error nor acceptance
+            return "other", type(ex).__name__
     bylim = {}
     n = 0
     for s in iter_dump(job["dump"]):
@@ -711,7 +743,7 @@ def _w_lattice(tag, job, out):
     if n != job["distinct"]:
         raise MachineryError(f"dump has {n} states, TLC reported {job['distinct']}")
     traces, nontrivial, samples = [], [], []
-    nexec = 0
+    nexec = nvec = 0
     for lt in sorted(bylim):
         me, ms, mt, trn, trd, ern, erd = lt
         limits = zip_bomb.ZipBombLimits(max_entries=me, max_total_uncompressed_bytes=mt,
@@ -732,19 +764,29 @@ def _w_lattice(tag, job, out):
             seen = {}
             for asg in assigns:
                 zf = Stub([info(*e, m) for e, m in zip(vec, asg)])
-                exc = ""
-                try:
-                    zip_bomb.validate_zipfile(zf, limits=limits, source="c11")
-                    obs = "ok"
-                except ExtractionZipBombError as ex:
-                    obs, exc = "bomb", str(ex)[:60]
-                except Exception as ex:         # wrong exception type: neither the bomb error nor acceptance
-                    obs, exc = "other", type(ex).__name__
+                obs, exc = observe(lambda: zip_bomb.validate_zipfile(zf, limits=limits, source="c11"))
                 nexec += 1
-                seen.setdefault(obs, (exc, asg))
-            for obs, (exc, asg) in sorted(seen.items()):
+                seen.setdefault(obs, (exc, asg, "validate_zipfile(ZipInfo list)"))
+            # the same vector as a real ZIP (local and central headers forged to the lattice sizes), through every
+            # entry point with the same limits object
+            asg = assigns[nvec % len(assigns)]
+            nvec += 1
+            data = build_zip([_member("%d_%s" % (j, info(*e, m).filename), b"", fs=e[0], cs=e[1], is_dir=bool(e[2]),
+                                      stored=True, meta=m) for j, (e, m) in enumerate(zip(vec, asg))])
+            with zipfile.ZipFile(io.BytesIO(data)) as rz:
+                if [(zi.file_size, zi.compress_size, 1 if zi.filename.endswith("/") else 0) for zi in rz.infolist()] \
+                        != [tuple(e) for e in vec]:
+                    raise MachineryError(f"lattice ZIP for {vec} reads back differently")
+                obs, exc = observe(lambda: zip_bomb.validate_zipfile(rz, limits=limits, source="c11"))
+                seen.setdefault(obs, (exc, asg, "validate_zipfile(real ZipFile)"))
+            for nm, fn in stream_eps:
+                obs, exc = observe(lambda: fn(io.BytesIO(data), limits=limits, source="c11"))
+                seen.setdefault(obs, (exc, asg, nm + "(real ZIP bytes)"))
+            nexec += 1 + len(stream_eps)
+            for obs, (exc, asg, ep) in sorted(seen.items()):
                 evs.append({"a": "Case", "es": [list(e) for e in vec], "obs": obs, "exp": exp, "fired": fired,
-                            "exc": exc, "meta": "all %d metadata assignments" % len(assigns) if len(seen) == 1
+                            "exc": exc, "ep": "all entry points" if len(seen) == 1 else ep,
+                            "meta": "all %d metadata assignments" % len(assigns) if len(seen) == 1
                             else [META_NAMES[m] for m in asg]})
             if exp == "reject":
                 nt += 1
@@ -891,6 +933,9 @@ def propose(lim, bU, bC, bN, rng):
         case("count+0", npf=ME - bN)
         case("count+1", npf=ME + 1 - bN)
         case("count+1 incl 1 dir", npf=ME - bN, npd=1)
+        case("count+0 through directory records", npd=ME - bN)
+        case("count+1 through directory records", npd=ME + 1 - bN)
+        case("count+1 half files half directories", npf=(ME + 1 - bN) // 2, npd=(ME + 1 - bN) - (ME + 1 - bN) // 2)
     # entry metadata, independent of the name: every clause's rejecting vector with each metadata variant on
     # the offending REGULAR member; real directory entries (trailing slash) with each variant; honest bombs
     for m in range(len(META)):
